@@ -277,7 +277,7 @@ def gen_model(rng, i):
         shape = [rng.randint(max(12, 3 * d + 2), 18) for d in diam]
     n = rng.randint(1, 4)
     dist = rng.choice([2.0, 2.0, 1.5, 1.0, 0.6])
-    border = [d // 2 + 1 + (rng.randint(0, 3) if rng.random() < 0.7 else 0) for d in diam]
+    border = [d // 2 + (rng.randint(0, 3) if rng.random() < 0.7 else 0) for d in diam]     # d//2 = locate's margin
     centred = rng.random() < 0.35
     pts = _place(rng, shape, n, diam, dist, border, snap_p=0.3)
     if centred:
